@@ -45,6 +45,12 @@ def _op(draw):
 
 @st.composite
 def _case(draw):
+    if draw(st.integers(0, 11)) == 0:
+        # the library's own flows with batch_norm_between_layers=True: every batch-norm POSITION has its own running statistics,
+        # which follow the momentum rule for the batches that position saw
+        return {"kind": "lib_flow", "which": draw(st.sampled_from(["maf", "realnvp"])), "features": draw(st.integers(2, 4)),
+                "layers": draw(st.integers(1, 3)), "passes": draw(st.integers(1, 3)), "rows": draw(st.integers(3, 9)),
+                "shift": draw(st.sampled_from([0.0, 2.0, -5.0])), "seed": draw(st.integers(0, 10 ** 6))}
     kind = draw(st.sampled_from(["actnorm", "batchnorm"]))
     c = {"kind": kind, "features": draw(st.integers(1, 4)), "start_eval": draw(st.booleans()), "precise": draw(st.sampled_from([True, True, False])),
          "ops": draw(st.lists(_op(), min_size=2, max_size=20))}
@@ -275,7 +281,67 @@ def _run_case(case):
     return res
 
 
+def _lib_flow(case):
+    from nflows import transforms as T
+    from nflows.flows import MaskedAutoregressiveFlow, SimpleRealNVP
+
+    res = CaseResult()
+    with dtype_mode(True):
+        torch.manual_seed(case["seed"])
+        f = case["features"]
+        mk = MaskedAutoregressiveFlow if case["which"] == "maf" else SimpleRealNVP
+        flow = mk(f, 8, case["layers"], 1, batch_norm_between_layers=True)
+        site = mk.__name__
+        res.labels += ["kind:lib_flow", "which:" + case["which"], "layers:%d" % case["layers"]]
+        pos = [t for t in flow._transform._transforms if isinstance(t, T.BatchNorm)]
+        if not pos:
+            res.fail("no_batch_norm", site, "batch_norm_between_layers=True built a flow without a BatchNorm transform")
+            return res
+        mom = float(pos[0].momentum)
+        model = [(t.running_mean.detach().double().clone(), t.running_var.detach().double().clone()) for t in pos]   # (as constructed)
+        calls = []
+        hooks = [t.register_forward_pre_hook(lambda mod, inp: calls.append(inp[0].detach().clone())) for t in {id(t): t for t in pos}.values()]
+        try:
+            flow.train()
+            g = torch.Generator().manual_seed(case["seed"] + 1)
+            for ps in range(case["passes"]):
+                x = torch.randn(case["rows"], f, generator=g) * 1.5 + case["shift"]
+                del calls[:]
+                lp = flow.log_prob(x)
+                if not bool(torch.isfinite(lp).all()):
+                    res.inconclusive += 1
+                    return res
+                if len(calls) != len(pos):
+                    res.fail("batch_norm_calls", site, "%d batch-norm positions but %d batch-norm calls in one pass" % (len(pos), len(calls)))
+                    return res
+                ok = {}
+                for conv in (True, False):          # running variance from the unbiased or the biased batch variance: either convention
+                    cand = [((1 - mom) * mu + mom * xk.mean(0), (1 - mom) * va + mom * xk.var(0, unbiased=conv)) for (mu, va), xk in zip(model, calls)]
+                    bad = None
+                    for k, (t, (mu, va)) in enumerate(zip(pos, cand)):
+                        e = max(float((t.running_mean.double() - mu).abs().max()), float((t.running_var.double() - va).abs().max()))
+                        if e > 1e-9 * (1 + float(mu.abs().max()) + float(va.abs().max())):
+                            bad = (k, e)
+                            break
+                    ok[conv] = (bad, cand)
+                good = [c_ for c_ in (True, False) if ok[c_][0] is None]
+                if not good:
+                    k, e = ok[True][0]
+                    res.fail("running_stats_wrong", site, "pass %d: running statistics of batch-norm position %d of %d are off by %.3g from the momentum "
+                             "rule applied to the batch that position saw" % (ps, k, len(pos), e), measured=e, position=min(k, 1), passes=min(ps, 1))
+                    res.nontrivial = True
+                    return res
+                model = ok[good[0]][1]
+            res.nontrivial = len(pos) >= 2
+        finally:
+            for h in hooks:
+                h.remove()
+    return res
+
+
 def run_case(case):
+    if case.get("kind") == "lib_flow":
+        return _lib_flow(case)
     try:
         return _run_case(case)
     finally:
